@@ -95,6 +95,15 @@ def run(ctx, bt, scale=1):
         ctx.evaluations += 1
         ctx.classes.add(("fi", tuple(spec["kinds"]), spec["sched"], spec["perturb_plan"]["mode"], spec["perturb_plan"]["pos"]))
         run_pair(ctx, bt, spec, build_fi)
+    if scale == 1:
+        # the Lean theorems say every engine operation at clock d reads the supplied columns at row d only (truncation commutes):
+        # the model is given the data truncated at the clock of each step and must still reproduce the real post-state
+        from ..runs_run import run_steps_protocol, run_days_protocol
+        run_steps_protocol(ctx, bt, ctx.scale(10, 250), None, "run-steps[C04]:data-truncated-at-clock", trunc=True)
+        run_days_protocol(ctx, bt, ctx.scale(8, 200), None, "btday[C04]:data-truncated-at-clock", trunc=True,
+                          make_spec=lambda rng: R.gen_run_spec(rng, nested=rng.random() < 0.5))
+        run_steps_protocol(ctx, bt, ctx.scale(6, 150), None, "run-steps[C04]:fixed-income:data-truncated-at-clock", trunc=True,
+                           make_spec=FI.gen_program, build=FI.build_program)
 
 
 def search(ctx, bt):
